@@ -11,7 +11,14 @@ correspondence:  (a) real Delta(...).dumps() bytes, parsed by pickletools.genops
                      Delta(text, deserializer=json_loads).diff against Codec.json_roundtrip;
                  (d) informational: which real dumps lie in the syntactic encoding class `accepts`
                      for which the round trip is proved (C14_accepted_encodings_roundtrip).
-direct oracle:   Delta(d.dumps()).diff == d.diff (typed), same for dump(file) / delta_path /
+                 (e) the pickler side (Pickle/PicklerHook.v): payloads written by CPython's pickle.Pickler WITHOUT
+                     deepdiff's persistent_id hook - the real pickle_load verdict, the model VM on those bytes and
+                     the model's hook-less pickler (dump_with no_hook) must agree (C14_plain_pickler_dump_refused).
+direct oracle:   class-value stream (classvalue_stream): every allow-listed class as a plain VALUE in every value
+                 position x every combination of report categories (alone, pairs, with / without type_changes),
+                 DeepDiff-made and raw payloads, written by dumps() / dump(BytesIO) / dump(file), read back from
+                 bytes / file object / path; controls also through JSON;
+                 Delta(d.dumps()).diff == d.diff (typed), same for dump(file) / delta_path /
                  delta_file / a second dump; equal results (or the same exception class) when the
                  original and the reloaded delta are applied to the original base and to two
                  perturbed bases (and subtracted, when bidirectional); the same for the JSON
@@ -207,8 +214,13 @@ def json_representable(p, top=True):
         for k, v in p.items():
             if type(k) is not str:
                 return False
-            if k in ("old_type", "new_type") and isinstance(v, type):
-                continue
+            if k in ("old_type", "new_type") and "old_type" in p and "new_type" in p:
+                # json_loads' object hook reads both entries as type NAMES.  A type change FROM a class object
+                # (DeltaResult._from_tree_type_changes: old_type = t1, new_type = t2, the VALUE) puts a non-type there:
+                # outside the JSON fragment (as in the model: json_ok wants PType under both)
+                if isinstance(v, type):
+                    continue
+                return False
             if not json_representable(v, False):
                 return False
         return True
@@ -296,6 +308,10 @@ def gen_pair(rng):
     elif k < 0.86:
         # sets, frozensets, tuples, None and type changes
         def small():
+            if rng.random() < 0.25:
+                # class objects as plain VALUES (a schema: field -> accepted types); after seeded C14-10
+                nt = type(None)
+                return rng.choice([nt, str, int, (str, nt), [int, nt], {"t": nt}, [str], bool, {"of": (list, dict)}, float, bytes, tuple, set, frozenset])
             return rng.choice([None, 1, "a", 2.5, True, b"ab", (1, 2), [1], {1, 2}, frozenset([1, "a"]), {"k": None}, {1: 2, None: 3}])
         keys = list({q: 0 for q in rng.sample(["a", "b", "c", "d", 1, 2, None, True, 0.5], rng.randint(1, 5))})
         t1 = {q: small() for q in keys}
@@ -365,6 +381,23 @@ def _by_id(x, y, level=None):
         raise CannotCompare() from None
 
 
+def _src(o):
+    """Python source of a generated value (eval gives it back): repr, except that class objects are written by name"""
+    if isinstance(o, type):
+        return "type(None)" if o is type(None) else o.__name__
+    if type(o) is list:
+        return "[%s]" % ", ".join(_src(x) for x in o)
+    if type(o) is tuple:
+        return "(%s%s)" % (", ".join(_src(x) for x in o), "," if len(o) == 1 else "")
+    if type(o) is dict:
+        return "{%s}" % ", ".join("%s: %s" % (_src(k), _src(x)) for k, x in o.items())
+    if type(o) is set:
+        return "{%s}" % ", ".join(_src(x) for x in o) if o else "set()"
+    if type(o) is frozenset:
+        return "frozenset([%s])" % ", ".join(_src(x) for x in o)
+    return repr(o)
+
+
 def perturb(rng, t):
     for _ in range(6):
         nv, k = V.edit(rng, t)
@@ -381,7 +414,7 @@ def apply_delta(base, delta, sub=False):
         try:
             return ("ok", V.canon_sorted(r))
         except (TypeError, AssertionError):
-            return ("ok-repr", repr(r))
+            return ("ok-typed", cv_canon(r))      # class objects, floats outside the half-integers ... (order-insensitive, typed)
     except RecursionError:
         return ("raised", "RecursionError")
     except Exception as e:  # noqa
@@ -445,7 +478,7 @@ def one_case(ctx, rng, idx, out):
         ctx.count("gen:unbuildable:" + type(e).__name__)
         return
     payload = d.diff
-    case = {"t1": repr(t1), "t2": repr(t2), "diff_kwargs": {k_: ("_by_id" if k_ == "iterable_compare_func" else v_) for k_, v_ in kw.items()},
+    case = {"t1": _src(t1), "t2": _src(t2), "diff_kwargs": {k_: ("_by_id" if k_ == "iterable_compare_func" else v_) for k_, v_ in kw.items()},
             "bidirectional": bid, "always_include_values": aiv, "gen": kind}
     try:
         pcanon = pv_canon(payload)
@@ -486,6 +519,9 @@ def one_case(ctx, rng, idx, out):
     if not typed_payload_eq(d2.diff, payload):
         ctx.fail(dict(case, path="pickle", stage="Delta(bytes)", loaded=repr(d2.diff), original=repr(payload)),
                  "Delta(delta.dumps()).diff differs from delta.diff")
+    if not typed_payload_eq(d2.to_dict(), d.to_dict()):
+        ctx.fail(dict(case, path="pickle", stage="to_dict", loaded=repr(d2.to_dict()), original=repr(d.to_dict())),
+                 "Delta(delta.dumps()).to_dict() differs from delta.to_dict()")
     # second generation
     b2 = d2.dumps()
     res2 = P.real_load(b2, None)
@@ -532,7 +568,7 @@ def one_case(ctx, rng, idx, out):
                 continue
             got = apply_delta(base, mk[nm]())
             if got != want:
-                ctx.fail(dict(case, path="pickle", stage="behaviour", source=nm, base=repr(base), original=want, reloaded=got),
+                ctx.fail(dict(case, path="pickle", stage="behaviour", source=nm, base=_src(base), original=want, reloaded=got),
                          "the reloaded delta (%s) behaves differently from the original on base #%d" % (nm, bi))
     if bid:
         want = apply_delta(t2, mk["orig"](), sub=True)
@@ -657,13 +693,13 @@ def one_case(ctx, rng, idx, out):
             for bi, base in enumerate(bases):
                 got = apply_delta(base, mkj())
                 if got != wants[bi]:
-                    ctx.fail(dict(jcase, stage="behaviour", base=repr(base), original=wants[bi], reloaded=got),
+                    ctx.fail(dict(jcase, stage="behaviour", base=_src(base), original=wants[bi], reloaded=got),
                              "the delta with set items reloaded from JSON behaves differently on base #%d" % bi)
             if bid:
                 want = apply_delta(t2, mk["orig"](), sub=True)
                 got = apply_delta(t2, mkj(), sub=True)
                 if got != want:
-                    ctx.fail(dict(jcase, stage="behaviour-sub", base=repr(t2), original=want, reloaded=got),
+                    ctx.fail(dict(jcase, stage="behaviour-sub", base=_src(t2), original=want, reloaded=got),
                              "t2 - (delta with set items reloaded from JSON) differs from t2 - original delta")
     if jrep:
         jcase = dict(case, path="json", has_opcodes="_iterable_opcodes" in payload, payload=repr(payload))
@@ -689,13 +725,13 @@ def one_case(ctx, rng, idx, out):
                 want = wants[bi]
                 got = apply_delta(base, Delta(text, deserializer=json_loads, serializer=json_dumps, bidirectional=bid, always_include_values=aiv))
                 if got != want:
-                    ctx.fail(dict(jcase, stage="behaviour", base=repr(base), original=want, reloaded=got),
+                    ctx.fail(dict(jcase, stage="behaviour", base=_src(base), original=want, reloaded=got),
                              "the delta reloaded from JSON behaves differently on base #%d" % bi)
             if bid:
                 want = apply_delta(t2, mk["orig"](), sub=True)
                 got = apply_delta(t2, Delta(text, deserializer=json_loads, serializer=json_dumps, bidirectional=bid, always_include_values=aiv), sub=True)
                 if got != want:
-                    ctx.fail(dict(jcase, stage="behaviour-sub", base=repr(t2), original=want, reloaded=got),
+                    ctx.fail(dict(jcase, stage="behaviour-sub", base=_src(t2), original=want, reloaded=got),
                              "t2 - (delta reloaded from JSON) differs from t2 - original delta")
             try:
                 t3 = dj2.dumps()
@@ -901,7 +937,18 @@ def exotic_cases():
         ("user class instance added", lambda: ({"a": 1}, {"a": 1, "p": Plain([1, 2])}, {})),
         ("user class as new_type of a type change", lambda: ([1, "x"], [Plain(1), "x"], {})),
         ("user class as old_type of a type change", lambda: ({"k": Plain("v")}, {"k": None}, {})),
+        # class objects as VALUES of attribute_added / attribute_removed (after seeded C14-10): no type_changes report next to them
+        ("attribute holding the class type(None) added", lambda: (_plain(1), _plain(1, extra=type(None)), {})),
+        ("attribute holding [str, NoneType] removed", lambda: (_plain(2, extra=[str, type(None)]), _plain(2), {})),
+        ("attribute holding {'k': (NoneType, Decimal)} added, in a dict", lambda: ({"o": _plain(3)}, {"o": _plain(3, extra={"k": (type(None), __import__("decimal").Decimal)})}, {})),
     ]
+
+
+def _plain(v, **attrs):
+    p = Plain(v)
+    for k, x in attrs.items():
+        setattr(p, k, x)
+    return p
 
 
 def exo_eq(a, b):
@@ -911,7 +958,9 @@ def exo_eq(a, b):
         return False
     if isinstance(a, np.ndarray):
         return a.dtype == b.dtype and a.shape == b.shape and bool(np.array_equal(a, b))
-    if isinstance(a, (EqRaises, EqList, Plain)):
+    if isinstance(a, Plain):
+        return exo_eq(vars(a), vars(b))
+    if isinstance(a, (EqRaises, EqList)):
         return exo_eq(a.v, b.v)
     if isinstance(a, dict):
         return list(a.keys()) == list(b.keys()) and all(exo_eq(a[k], b[k]) for k in a)
@@ -972,6 +1021,12 @@ def exotic_one(ctx, k, bid):
             m = re.search(r"Module '([^']+)'", str(e))
             if not m or m.group(1) in safe:
                 break
+            if not (m.group(1).startswith(EXO_MOD + ".") or m.group(1).startswith("numpy")):
+                # only the classes of the values themselves may be asked for: a dump that needs anything else
+                # (builtins.type, say, for a class written by reduce(type, ...)) is not what the restricted pickler writes
+                ctx.fail(dict(case, stage="load", error="ForbiddenModule", needs=m.group(1), safe_to_import=sorted(safe)),
+                         "the dump of a delta holding %s needs %s to load, which is neither allow-listed nor a class of its values" % (name, m.group(1)))
+                return
             safe.add(m.group(1))
         except Exception as e:  # noqa
             ctx.fail(dict(case, stage="load", error=type(e).__name__, safe_to_import=sorted(safe)),
@@ -1106,6 +1161,496 @@ def exotic_stream(ctx):
             exotic_one(ctx, k, bid)
     ctx.note("exotic_values", "numpy arrays and objects with an unusual __eq__ are outside the Coq payload model; "
              "%d hand-written deltas x bidirectional go through dumps()/dump(file)/reload with a direct oracle only" % n)
+
+
+# ---------------------------------------------------------------------------
+# class objects as VALUES x every combination of report categories (after seeded C14-10)
+#
+# The persisted form must not depend on WHICH report categories a delta holds, nor on where in it a value sits
+# that only a hook of the restricted pickler / unpickler handles (type(None) travels as the persistent id
+# "<<NoneType>>"; every other class as a global that find_class must let through).  This stream builds deltas
+# from COMPONENTS - one per report category, each under its own key of a top-level dict - and puts a class object
+# (every allow-listed name that can be a value) into the value position of every component, bare and wrapped at
+# several depths / sizes, alone, in pairs, with and without a type_changes record next to it; both as DeepDiff
+# makes them (mode "dd") and as a payload dict handed to Delta (mode "raw": the positions DeepDiff cannot reach,
+# e.g. new_value / old_value of values_changed holding NoneType).  Each delta goes through dumps(), dump(BytesIO),
+# dump(file on disk) and comes back from bytes, file object and path.
+# ---------------------------------------------------------------------------
+
+CV_BASELINE = ['builtins.range', 'builtins.complex', 'builtins.set', 'builtins.frozenset', 'builtins.slice', 'builtins.str',
+               'builtins.bytes', 'builtins.list', 'builtins.tuple', 'builtins.int', 'builtins.float', 'builtins.dict',
+               'builtins.bool', 'builtins.bin', 'builtins.None', 'datetime.datetime', 'datetime.time', 'datetime.timedelta',
+               'decimal.Decimal', 'uuid.UUID', 'orderly_set.sets.OrderedSet', 'orderly_set.sets.OrderlySet',
+               'orderly_set.sets.StableSetEq', 'deepdiff.helper.SetOrdered', 'collections.namedtuple',
+               'collections.OrderedDict', 're.Pattern', 'deepdiff.helper.Opcode']
+CV_WRAPS = ["bare", "list", "tuple", "dict", "deep", "frozenset", "big"]
+CV_VALUE_COMPS = ["da", "dr", "ia", "ir", "vc", "sa", "sr", "xa", "xr", "op"]
+CV_TC_COMPS = ["tcN", "tcP", "tcV"]
+CV_CONTROLS = {"ctl:int": 7, "ctl:str": "s", "ctl:None": None, "ctl:float": 2.5}
+_CV = {}
+_NOINST = object()
+
+
+def cv_values():
+    """name -> object: every allow-listed name that can occur as a VALUE of a delta (classes; the two allow-listed
+    functions; 'builtins.None' stands for the class type(None)), from the live SAFE_TO_IMPORT and a fixed copy of it"""
+    if "values" in _CV:
+        return _CV["values"]
+    import importlib
+    from deepdiff.serialization import SAFE_TO_IMPORT
+    out = {}
+    for name in CV_BASELINE + sorted(set(SAFE_TO_IMPORT) - set(CV_BASELINE)):
+        if name == "builtins.None":
+            out[name] = type(None)
+            continue
+        parts = name.split(".")
+        for cut in range(len(parts) - 1, 0, -1):
+            try:
+                obj = importlib.import_module(".".join(parts[:cut]))
+                for a in parts[cut:]:
+                    obj = getattr(obj, a)
+            except Exception:  # noqa
+                continue
+            if isinstance(obj, type) or callable(obj):
+                out[name] = obj
+            break
+    _CV["values"] = out
+    return out
+
+
+def cv_instance(name):
+    """a value whose class is the named one (DeepDiff reports instance -> class as values_changed), or _NOINST"""
+    import collections
+    import datetime
+    import decimal
+    import uuid
+    return {"builtins.str": "x", "builtins.int": 1, "builtins.bool": True, "builtins.float": 1.5, "builtins.bytes": b"ab",
+            "builtins.complex": 1j, "datetime.datetime": datetime.datetime(2020, 1, 2, 3, 4, 5), "datetime.time": datetime.time(1, 2),
+            "datetime.timedelta": datetime.timedelta(1), "decimal.Decimal": decimal.Decimal("1.5"),
+            "uuid.UUID": uuid.UUID(int=1)}.get(name, _NOINST)
+
+
+def cv_wrap(kind, v):
+    if kind == "bare":
+        return v
+    if kind == "list":
+        return [v, 1]
+    if kind == "tuple":
+        return ("t", v)
+    if kind == "dict":
+        return {"k": v, "d": None}
+    if kind == "deep":
+        return {"f": [{"n": (v, 1)}, 2]}
+    if kind == "frozenset":
+        return frozenset({v, 1})
+    if kind == "big":
+        return [v if i == 30 else (i if i % 3 else "s%d" % i) for i in range(60)]
+    raise ValueError(kind)
+
+
+def cv_build(spec):
+    """spec = {"value": name, "wrap": kind, "comps": [...], "mode": "dd"|"raw", "bid": bool}
+    -> (t1, t2, DeepDiff kwargs, raw payload or None)"""
+    from deepdiff.helper import Opcode
+    name, kind, comps, mode, bid = spec["value"], spec["wrap"], spec["comps"], spec["mode"], spec["bid"]
+    v = CV_CONTROLS[name] if name in CV_CONTROLS else cv_values()[name]
+    other = str if v is not str else int
+    W = cv_wrap(kind, v)
+    try:
+        hash(W)
+        H = W
+    except TypeError:
+        H = (v, "h")
+    inst = cv_instance(name)
+    W0 = cv_wrap(kind, inst if (mode == "dd" and inst is not _NOINST) else (other if name not in CV_CONTROLS else "old"))
+    nt = type(None)
+    t1, t2, raw = {}, {}, {}
+
+    def add(k, a, b, cat, entries):
+        t1[k], t2[k] = a, b
+        raw.setdefault(cat, {}).update(entries)
+    for c in comps:
+        if c == "da":
+            add("da", {"x": 1}, {"x": 1, "n": W}, "dictionary_item_added", {"root['da']['n']": W})
+        elif c == "dr":
+            add("dr", {"x": 1, "n": W}, {"x": 1}, "dictionary_item_removed", {"root['dr']['n']": W})
+        elif c == "ia":
+            add("ia", [1, 2], [1, 2, W], "iterable_item_added", {"root['ia'][2]": W})
+        elif c == "ir":
+            add("ir", [1, 2, W], [1, 2], "iterable_item_removed", {"root['ir'][2]": W})
+        elif c == "vc":
+            add("vc", W0, W, "values_changed", {"root['vc']": dict({"new_value": W}, **({"old_value": W0} if bid else {}))})
+        elif c == "sa":
+            add("sa", {1, 2}, {1, 2, H}, "set_item_added", {"root['sa']": {H}})
+        elif c == "sr":
+            add("sr", {1, 2, H}, {1, 2}, "set_item_removed", {"root['sr']": {H}})
+        elif c == "xa":
+            add("xa", [1, 2, 2], [2, 1, W], "iterable_items_added_at_indexes", {"root['xa']": {2: W}})
+        elif c == "xr":
+            add("xr", [1, 2, W], [2, 1], "iterable_items_removed_at_indexes", {"root['xr']": {2: W}})
+        elif c == "op":
+            add("op", [1, 2, 3, 4], [W, 8, 1, 2, 3, 4], "_iterable_opcodes",
+                {"root['op']": [Opcode("insert", 0, 0, 0, 2, [], [W, 8]), Opcode("equal", 0, 4, 2, 6, None, None)]})
+        elif c == "tcN":
+            add("tcN", None, 3, "type_changes",
+                {"root['tcN']": dict({"old_type": nt, "new_type": int, "new_value": 3}, **({"old_value": None} if bid else {}))})
+        elif c == "tcP":
+            add("tcP", 1, "a", "type_changes",
+                {"root['tcP']": dict({"old_type": int, "new_type": str, "new_value": "a"}, **({"old_value": 1} if bid else {}))})
+        elif c == "tcV":
+            add("tcV", 1.5, W, "type_changes",
+                {"root['tcV']": dict({"old_type": float, "new_type": W if isinstance(W, type) else type(W), "new_value": W},
+                                     **({"old_value": 1.5} if bid else {}))})
+        else:
+            raise ValueError(c)
+    kw = {"ignore_order": True, "report_repetition": True} if (mode == "dd" and ("xa" in comps or "xr" in comps)) else {}
+    return t1, t2, kw, (raw if mode == "raw" else None)
+
+
+def cv_canon(o):
+    """typed, order-insensitive (dicts, sets) canonical form that also carries class / function objects"""
+    Opcode, SetOrdered = _helper()
+    if isinstance(o, type):
+        return ["G", o.__module__, o.__qualname__]
+    if o is None or type(o) in (bool, int, str, bytes):
+        return [type(o).__name__, o if type(o) is not bytes else o.decode("latin-1")]
+    if type(o) is float:
+        return ["float", repr(o)]
+    if type(o) is Opcode:
+        return ["Op"] + [cv_canon(x) for x in o]
+    if type(o) is list or type(o) is tuple or type(o) is SetOrdered:
+        return [type(o).__name__, [cv_canon(x) for x in o]]
+    if type(o) is dict:
+        return ["dict", sorted(([cv_canon(k), cv_canon(x)] for k, x in o.items()), key=repr)]
+    if type(o) in (set, frozenset):
+        return [type(o).__name__, sorted((cv_canon(x) for x in o), key=repr)]
+    if callable(o) and hasattr(o, "__qualname__"):
+        return ["FN", getattr(o, "__module__", None), o.__qualname__]
+    return [type(o).__module__ + "." + type(o).__qualname__, repr(o)]
+
+
+def cv_apply(base, delta, sub=False):
+    import copy
+    try:
+        b = copy.deepcopy(base)
+        return ["ok", cv_canon((b - delta) if sub else (b + delta))]
+    except RecursionError:
+        return ["raised", "RecursionError"]
+    except Exception as e:  # noqa
+        return ["raised", type(e).__name__]
+
+
+def cv_class_positions(payload):
+    """{category: {names of the class objects that occur somewhere inside it}}"""
+    out = {}
+
+    def walk(o, acc):
+        if isinstance(o, type):
+            acc.add("NoneType" if o is type(None) else "class")
+        elif isinstance(o, dict):
+            for k, x in o.items():
+                walk(k, acc)
+                walk(x, acc)
+        elif isinstance(o, (list, tuple, set, frozenset)):
+            for x in o:
+                walk(x, acc)
+    for cat, body in payload.items():
+        acc = set()
+        if cat == "type_changes" and isinstance(body, dict):     # old_type / new_type are not VALUE positions
+            for rec in body.values():
+                if isinstance(rec, dict):
+                    walk({k: x for k, x in rec.items() if k not in ("old_type", "new_type")}, acc)
+        else:
+            walk(body, acc)
+        out[cat] = acc
+    return out
+
+
+def cv_one(ctx, spec, idx, out):
+    """the direct oracle on one delta of the class-value stream: every way of persisting it, every way of reading it back"""
+    import logging
+    logging.disable(logging.CRITICAL)
+    from deepdiff import DeepDiff, Delta
+    bid = spec["bid"]
+    case = {"classval": spec, "bidirectional": bid}
+    try:
+        t1, t2, kw, raw = cv_build(spec)
+    except KeyError:
+        ctx.count("classval:value-not-in-this-process")
+        return
+    try:
+        def mk_orig():
+            return Delta(raw if raw is not None else DeepDiff(t1, t2, **kw), bidirectional=bid)
+        d = mk_orig()
+        payload = d.diff
+    except Exception as e:  # noqa: DeepDiff cannot diff these two (e.g. an instance against a container class)
+        ctx.count("classval:unbuildable:" + type(e).__name__)
+        return
+    if not payload:
+        ctx.count("classval:empty-diff")
+        return
+    try:
+        pcanon = pv_canon(payload)
+    except Unsupported:
+        pcanon = None
+    ctx.seen(("classval", repr(cv_canon(payload)), bid), nontrivial=True)
+    ctx.count("classval:mode:" + spec["mode"])
+    ctx.count("classval:wrap:" + spec["wrap"])
+    has_tc = "type_changes" in payload
+    for cat, kinds in cv_class_positions(payload).items():
+        for k_ in sorted(kinds):
+            ctx.count("classval:%s inside %s, %s a type_changes report" % (k_, cat, "with" if has_tc else "WITHOUT"))
+    ctx.count("classval:categories=%d" % len(payload))
+    case["categories"] = sorted(payload)
+    want_p = cv_canon(payload)
+    want_d = cv_canon(d.to_dict())
+
+    # ---- the three ways of writing ------------------------------------------
+    try:
+        b1 = d.dumps()
+    except Exception as e:  # noqa
+        ctx.fail(dict(case, path="pickle", stage="dumps", error=type(e).__name__), "Delta.dumps() raised %s" % type(e).__name__)
+        return
+    fn = os.path.join(ctx.scratch, "classval_%d.bin" % (idx % 5))
+    try:
+        buf = io.BytesIO()
+        d.dump(buf)
+        with open(fn, "wb") as f:
+            d.dump(f)
+        with open(fn, "rb") as f:
+            on_disk = f.read()
+    except Exception as e:  # noqa
+        ctx.fail(dict(case, path="pickle", stage="dump(file)", error=type(e).__name__), "Delta.dump(file) raised %s" % type(e).__name__)
+        return
+    if buf.getvalue() != b1 or on_disk != b1:
+        ctx.fail(dict(case, path="pickle", stage="dump(file)"), "dump(file) and dumps() wrote different bytes for the same delta")
+    safe = SAFE_SHAPES[idx % len(SAFE_SHAPES)]
+    case["safe_to_import"] = repr(safe)
+
+    def from_file():
+        with open(fn, "rb") as f:
+            return Delta(delta_file=f, bidirectional=bid, safe_to_import=safe)
+    mk = {"bytes": lambda: Delta(b1, bidirectional=bid, safe_to_import=safe),
+          "fileobj": lambda: Delta(delta_file=io.BytesIO(buf.getvalue()), bidirectional=bid, safe_to_import=safe),
+          "file": from_file,
+          "path": lambda: Delta(delta_path=fn, bidirectional=bid, safe_to_import=safe)}
+    # ---- the ways of reading back ---------------------------------------------
+    res = P.real_load(b1, None)
+    if res["cls"] != "ok":
+        ctx.fail(dict(case, path="pickle", stage="load", source="pickle_load", error=res["exc"]),
+                 "Delta's own dump does not load: %s (categories %s)" % (res["exc"], ", ".join(sorted(payload))))
+        return
+    if cv_canon(res["result"]) != want_p:
+        ctx.fail(dict(case, path="pickle", stage="payload", source="pickle_load", loaded=repr(res["result"]), original=repr(payload)),
+                 "pickle_load(delta.dumps()) differs from delta.diff")
+    bases = [t1, t2, [t1]]
+    wants = [cv_apply(b_, mk_orig()) for b_ in bases]
+    want_sub = cv_apply(t2, mk_orig(), sub=True) if bid else None
+    ctx.count("classval:behaviour:" + wants[0][0])
+    for nm in ("bytes", "fileobj", "file", "path"):
+        try:
+            dx = mk[nm]()
+        except Exception as e:  # noqa
+            ctx.fail(dict(case, path="pickle", stage="load", source=nm, error=type(e).__name__),
+                     "Delta's own dump does not load from %s: %s (categories %s)" % (nm, type(e).__name__, ", ".join(sorted(payload))))
+            continue
+        if cv_canon(dx.diff) != want_p:
+            ctx.fail(dict(case, path="pickle", stage="payload", source=nm, loaded=repr(dx.diff), original=repr(payload)),
+                     "the delta reloaded from %s carries a different payload" % nm)
+        if cv_canon(dx.to_dict()) != want_d:
+            ctx.fail(dict(case, path="pickle", stage="to_dict", source=nm), "to_dict() of the delta reloaded from %s differs" % nm)
+        for bi, b_ in enumerate(bases if nm == "bytes" else bases[:1]):
+            got = cv_apply(b_, mk[nm]())
+            if got != wants[bi]:
+                ctx.fail(dict(case, path="pickle", stage="behaviour", source=nm, base_index=bi, original=wants[bi], reloaded=got),
+                         "the delta reloaded from %s behaves differently from the original on base #%d" % (nm, bi))
+        if bid:
+            got = cv_apply(t2, mk[nm](), sub=True)
+            if got != want_sub:
+                ctx.fail(dict(case, path="pickle", stage="behaviour-sub", source=nm, original=want_sub, reloaded=got),
+                         "t2 - (delta reloaded from %s) differs from t2 - original delta" % nm)
+        if nm == "bytes":
+            try:
+                b2 = dx.dumps()
+                if cv_canon(Delta(b2, bidirectional=bid).diff) != want_p:
+                    ctx.fail(dict(case, path="pickle", stage="second dump"), "dumping the reloaded delta again gives a different payload")
+            except Exception as e:  # noqa
+                ctx.fail(dict(case, path="pickle", stage="second dump", error=type(e).__name__),
+                         "the reloaded delta cannot be dumped and loaded again: %s" % type(e).__name__)
+    # ---- the JSON form, where JSON can carry the payload (the control values) --------------------------------
+    if spec["value"] in CV_CONTROLS and (json_representable(payload) or json_setitems_form(payload)):
+        cv_json(ctx, case, mk_orig, raw if raw is not None else DeepDiff(t1, t2, **kw), payload, bases, wants, want_sub, t2, bid)
+    # ---- correspondence: the real bytes on the model VM (a sample; payloads inside the model's universe) --------
+    share = "nt" if spec["value"] == "builtins.None" else "other"
+    if pcanon is not None and spec.get("coq") and out.get("cv_vm_n:" + share, 0) < out.get("cv_vm_max", 0) * (2 if share == "nt" else 1) // 3:
+        out["cv_vm_n:" + share] = out.get("cv_vm_n:" + share, 0) + 1
+        try:
+            expected = [pv_canon(res["result"]), [[m, n] for m, n, r in res["calls"] if r]]
+            bs = P.coq_bytes(b1)
+            out["vm"].append(("(let bs := %s in SL [sx_load_bytes default_world %s bs; sx_genops %s bs; sx_bool (negb (snd (bdecode %s bs)))])" % (
+                                  bs, P.coq_c_dialect(b1), P.coq_g_dialect(b1), P.coq_c_dialect(b1)),
+                              [expected, P.genops_obs(b1), True], dict(case, corr="vm", generation=1)))
+            out["acc"].append(("((bdecode_ops (c_dialect no_text) %s), %s)" % (bs, pv_coq(payload)), False,
+                               dict(case, corr="accepts", generation=1, shared=False)))
+            ctx.count("classval:real dump also run on the model VM")
+            if len(out["enc"]) < out["enc_max"] + out.get("cv_enc_max", 0) and spec["wrap"] != "big":
+                out["enc"].append((pv_coq(payload), pcanon, case))
+        except (Unsupported, ValueError):
+            pass
+    if pcanon is not None and spec["wrap"] != "big" and (spec.get("coq") or idx % 5 == 0):
+        kind_ = "with" if _mentions_nonetype(payload) else "without"
+        if out.get("cv_hook_n:" + kind_, 0) < out.get("cv_hook_max", 0) // 2:
+            out["cv_hook_n:" + kind_] = out.get("cv_hook_n:" + kind_, 0) + 1
+            hook_case(ctx, payload, case, out)
+
+
+def _mentions_nonetype(o):
+    Opcode, SetOrdered = _helper()
+    if o is type(None):
+        return True
+    if isinstance(o, dict):
+        return any(_mentions_nonetype(x) for x in o.values())
+    if isinstance(o, (list, tuple)) or type(o) is SetOrdered:
+        return any(_mentions_nonetype(x) for x in o)
+    return False
+
+
+def hook_case(ctx, payload, case, out):
+    """The pickler side of the model (Pickle/PicklerHook.v).  The same payload written by CPython's pickle.Pickler, i.e.
+    WITHOUT deepdiff's persistent_id hook, and given to deepdiff's restricted unpickler: (a) the model VM on those real
+    bytes must reach the verdict of the real pickle_load (ForbiddenModule builtins.type as soon as the class type(None)
+    occurs, the payload otherwise); (b) the model's own hook-less pickler (dump_with no_hook: the class by reduction)
+    must predict the same verdict and the same failing name; (c) mentions_nonetype is the Python predicate.
+    C14_plain_pickler_dump_refused / C14_plain_pickler_same_dump are the theorems about (b)."""
+    import pickle
+    try:
+        pcoq = pv_coq(payload)
+        buf = io.BytesIO()
+        pickle.Pickler(buf, protocol=4, fix_imports=False).dump(payload)
+        pb = buf.getvalue()
+        rp = P.real_load(pb, None)
+        resolved = [[m, n] for m, n, r in rp["calls"] if r]
+        if rp["cls"] == "ok":
+            real = [pv_canon(rp["result"]), resolved]
+            predicted = pv_canon(payload)
+        else:
+            failing = [rp["calls"][-1][0], rp["calls"][-1][1]] if rp["calls"] and not rp["calls"][-1][2] else None
+            real = [rp["cls"], resolved]
+            predicted = [rp["cls"], failing]
+        bs = P.coq_bytes(pb)
+    except (Unsupported, ValueError):
+        return
+    expr = ("(let bs := %s in SL [sx_load_bytes default_world %s bs; "
+            "match fst (vm_run default_world (dump_with no_hook %s)) with Done o => sx_opv (decode o) | Err e => SL [sx_err_class e; sx_err_name e] end; "
+            "sx_bool (mentions_nonetype %s)])" % (bs, P.coq_c_dialect(pb), pcoq, pcoq))
+    out.setdefault("hook", []).append((expr, [real, predicted, _mentions_nonetype(payload)], dict(case, corr="pickler-without-hook")))
+    ctx.count("classval:written by pickle.Pickler (no persistent_id hook): " +
+              ("ForbiddenModule" if rp["cls"] != "ok" else "loads") + (", holds type(None)" if _mentions_nonetype(payload) else ", no type(None)"))
+
+
+def cv_json(ctx, case, mk_orig, src, payload, bases, wants, want_sub, t2, bid):
+    """serializer=json_dumps / deserializer=json_loads on a JSON-representable delta of the stream: the payload comes back
+    equal (set items as the lists of their members: setlist_py), behaves the same, and survives a second trip"""
+    from deepdiff import Delta
+    from deepdiff.serialization import json_dumps, json_loads
+    ctx.count("classval:json")
+    jcase = dict(case, path="json", has_opcodes="_iterable_opcodes" in payload, payload=repr(payload))
+    try:
+        text = Delta(src, bidirectional=bid, serializer=json_dumps).dumps()
+    except Exception as e:  # noqa
+        ctx.fail(dict(jcase, stage="dumps", error=type(e).__name__), "json_dumps raised %s on a JSON-representable delta" % type(e).__name__)
+        return
+
+    def mkj(t=text):
+        return Delta(t, deserializer=json_loads, serializer=json_dumps, bidirectional=bid)
+    try:
+        dj = mkj()
+    except Exception as e:  # noqa
+        ctx.fail(dict(jcase, stage="load", error=type(e).__name__), "a JSON-serialised delta does not load again: %s (categories %s)" % (
+            type(e).__name__, ", ".join(sorted(payload))))
+        return
+    want_p = setlist_py(payload)
+    if not typed_payload_eq(dj.diff, want_p):
+        ctx.fail(dict(jcase, stage="payload", loaded=repr(dj.diff), nonetype_only=_nonetype_only(want_p, dj.diff)),
+                 "the JSON round trip changes the payload")
+    for bi, b_ in enumerate(bases):
+        got = cv_apply(b_, mkj())
+        if got != wants[bi]:
+            ctx.fail(dict(jcase, stage="behaviour", base_index=bi, original=wants[bi], reloaded=got),
+                     "the delta reloaded from JSON behaves differently on base #%d" % bi)
+    if bid:
+        got = cv_apply(t2, mkj(), sub=True)
+        if got != want_sub:
+            ctx.fail(dict(jcase, stage="behaviour-sub", original=want_sub, reloaded=got), "t2 - (delta reloaded from JSON) differs from t2 - original delta")
+    try:
+        t3 = dj.dumps()
+        if json.loads(t3) != json.loads(text):
+            ctx.fail(dict(jcase, stage="second dump", nonetype_only=_nonetype_only(want_p, dj.diff) and not typed_payload_eq(dj.diff, want_p)),
+                     "dumping the JSON-reloaded delta again gives different JSON")
+    except Exception as e:  # noqa
+        ctx.fail(dict(jcase, stage="second dump", error=type(e).__name__), "dumping the JSON-reloaded delta raised")
+
+
+def cv_specs(thorough):
+    """the enumeration: see the header of this section"""
+    names = list(cv_values())
+    nt = "builtins.None"
+    singles = [[c] for c in CV_VALUE_COMPS]
+    with_tc = [[c, t] for c in CV_VALUE_COMPS for t in CV_TC_COMPS]
+    tc_only = [["tcV"], ["tcV", "tcN"], ["tcV", "tcP"]]
+    pairs = [[a, b] for i, a in enumerate(CV_VALUE_COMPS) for b in CV_VALUE_COMPS[i + 1:]]
+    big = [list(CV_VALUE_COMPS), CV_VALUE_COMPS + CV_TC_COMPS]
+    specs = []
+    n = [0]
+
+    def put(value, wrap, comps, mode, bids=None, coq=False, both=True):
+        if mode == "dd" and "op" in comps:     # DeepDiff takes the difflib path only for lists of strings / numbers
+            if both:
+                return
+            mode = "raw"
+        for bid in (bids if bids is not None else ((False, True) if thorough else (n[0] % 2 == 0,))):
+            specs.append({"value": value, "wrap": wrap, "comps": comps, "mode": mode, "bid": bid, "coq": coq})
+        n[0] += 1
+    # type(None): the value only the persistent-id hook carries - every wrap x (alone, with each kind of type change)
+    for wi, wrap in enumerate(CV_WRAPS):
+        for si, comps in enumerate(singles + with_tc + tc_only):
+            put(nt, wrap, comps, "raw", coq=(si + wi) % 4 == 0)
+            if thorough or (si + wi) % 2 == 0:
+                put(nt, wrap, comps, "dd", coq=(si + wi) % 8 == 0)
+    for pi, comps in enumerate(pairs + big):
+        for wrap in (CV_WRAPS if thorough else [CV_WRAPS[pi % len(CV_WRAPS)]]):
+            put(nt, wrap, comps, "raw", coq=pi % 6 == 0)
+            put(nt, wrap, comps, "dd")
+    # every other allow-listed class / function: each position alone and next to a type change
+    k = 0
+    for name in names:
+        if name == nt:
+            continue
+        for comps in singles + [[c, "tcP"] for c in CV_VALUE_COMPS] + [["tcV"]]:
+            for wrap in (CV_WRAPS if thorough else [CV_WRAPS[k % len(CV_WRAPS)]]):
+                put(name, wrap, comps, "raw" if (thorough or k % 3) else "dd", coq=k % 25 == 0, both=thorough)
+                if thorough:
+                    put(name, wrap, comps, "dd")
+            k += 1
+    # controls: ordinary values through the same combinations of categories (one category alone, each pair)
+    for ci, name in enumerate(CV_CONTROLS):
+        for si, comps in enumerate(singles + with_tc[::3] + pairs + big):
+            if thorough or (si + ci) % 2 == 0:
+                put(name, "bare" if si % 2 else "list", comps, "raw" if si % 3 else "dd", coq=si % 12 == 0, both=False)
+    return specs
+
+
+def classvalue_stream(ctx, out):
+    specs = cv_specs(ctx.thorough)
+    out["cv_vm_max"] = 400 if ctx.thorough else 70
+    out["cv_enc_max"] = 60 if ctx.thorough else 20
+    out["cv_hook_max"] = 200 if ctx.thorough else 40
+    for i, spec in enumerate(specs):
+        cv_one(ctx, spec, i, out)
+    ctx.note("class_values", "%d deltas (values: %d allow-listed classes / functions + %d ordinary controls; wraps %s; components %s; "
+             "DeepDiff-made and raw payloads) written by dumps(), dump(BytesIO), dump(file) and read back from bytes, file object, "
+             "on-disk file and path" % (len(specs), len(cv_values()), len(CV_CONTROLS), "/".join(CV_WRAPS),
+                                        "/".join(CV_VALUE_COMPS + CV_TC_COMPS)))
 
 
 # ---------------------------------------------------------------------------
@@ -1321,10 +1866,12 @@ def run(ctx):
     interference_stream(ctx)       # first: everything below also runs after the unrelated calls
     for i in range(n):
         one_case(ctx, ctx.rng, i, out)
+    classvalue_stream(ctx, out)
     exotic_stream(ctx)
     out["json"] += fixed_witnesses(ctx)
-    hdr = "From DD Require Import Base.PyStr Base.Value Pickle.Vm Pickle.Codec Pickle.Bytes Pickle.PickleShow Pickle.JsonProofs Pickle.JsonNoneProofs.\nLocal Open Scope Z_scope."
+    hdr = "From DD Require Import Base.PyStr Base.Value Pickle.Vm Pickle.Codec Pickle.Bytes Pickle.PickleShow Pickle.JsonProofs Pickle.JsonNoneProofs Pickle.PicklerHook.\nLocal Open Scope Z_scope."
     ctx.coq_cases("c14_vm", hdr, out["vm"], shard=60, label="real dumps on the model VM")
+    ctx.coq_cases("c14_hook", hdr, out.get("hook", []), shard=60, label="dumps of a pickler without the persistent_id hook: real verdict, model VM, model pickler")
     ctx.coq_cases("c14_json", hdr, out["json"], shard=120, label="json value + json round trip")
     accepts_part(ctx, out["acc"])
     from harness import deltacommon as DC
@@ -1350,6 +1897,16 @@ def replay(ctx, data):
         install_exotic()
         print("replay: exotic value case %d (%s), bidirectional=%s" % (case["exotic"], case.get("what"), case.get("bidirectional")))
         exotic_one(ctx, case["exotic"], case.get("bidirectional", False))
+        return
+    if "classval" in case:
+        spec = case["classval"]
+        t1, t2, kw, raw = cv_build(spec)
+        print("replay: class-value case %r" % (spec,))
+        print("replay: t1 = %r\nreplay: t2 = %r\nreplay: %s" % (t1, t2, ("raw payload = %r" % (raw,)) if raw is not None else "DeepDiff kwargs = %r" % (kw,)))
+        idx = ([i for i, s_ in enumerate(SAFE_SHAPES) if repr(s_) == case.get("safe_to_import")] or [0])[0]
+        cv_one(ctx, dict(spec, coq=False), idx, {"vm": [], "acc": [], "enc": [], "enc_max": 0})
+        for f_ in ctx.failures[:3]:
+            print("replay: FAILS - %s [%s]" % (f_["what"], ", ".join("%s=%s" % (k_, f_["case"].get(k_)) for k_ in ("stage", "source", "error") if k_ in f_["case"])))
         return
     if "t1" not in case:
         return run(ctx)
